@@ -143,6 +143,27 @@ impl Report {
       }
     }
     self.violations.sort_by(|a, b| a.key.cmp(&b.key));
+    // replay mode (bin/check <ID> --replay <file>): the check was re-run to re-execute the
+    // recorded case; report only whether that key reproduces, leave evidence files alone
+    if let Ok(want) = std::env::var("GBMC_REPLAY_KEY") {
+      if !self.machinery.is_empty() {
+        for m in self.machinery.iter() {
+          eprintln!("MACHINERY-ERROR property={} {}", self.id, m);
+        }
+        return 2;
+      }
+      return match self.violations.iter().find(|v| v.key == want) {
+        Some(v) => {
+          println!("REPRODUCED property={} key={} ({} case(s))", self.id, v.key, v.count);
+          println!("{}", v.detail.to_pretty());
+          1
+        },
+        None => {
+          println!("NOT-REPRODUCED property={} key={} ({} other violation key(s) in this run)", self.id, want, self.violations.len());
+          0
+        },
+      };
+    }
     let mut known_seen: Vec<J> = Vec::new();
     let mut new_viol: Vec<&Violation> = Vec::new();
     for v in self.violations.iter() {
